@@ -6,6 +6,7 @@ package nd
 import (
 	"encoding/json"
 	"fmt"
+	"math"
 	"os"
 )
 
@@ -74,6 +75,9 @@ func Uint32() uint32 { return uint32(next("u32")) }
 func Uint64() uint64 { return next("u64") }
 func Int() int       { return int(next("int")) }
 func Bool() bool     { return next("bool") != 0 }
+
+// Float64 returns an arbitrary float64 (any bit pattern).
+func Float64() float64 { return math.Float64frombits(next("f64")) }
 
 func Bytes(n int) []byte {
 	b := make([]byte, n)
